@@ -65,6 +65,7 @@ def model(prog):
     kind = "ok"
     ties = False
     leftovers = []   # absolute times of plain delayed calls left behind
+    base = []        # stages that raised / failed with a KeyboardInterrupt
     stack = [("cleanup%d" % i, b) for i, b in enumerate(prog.get("cleanups", []))]
 
     def limit():
@@ -82,6 +83,8 @@ def model(prog):
                 leftovers.append(now + float(x.split(":")[1]))
             elif x == "leave_chain":
                 leftovers.append(float("inf"))
+            elif x == "leave_reader":
+                leftovers.append(float("inf"))      # a selectable left registered with the reactor: junk, too
         end = now + duration(b)
         if end == limit() and duration(b) > 0:
             ties = True
@@ -99,6 +102,8 @@ def model(prog):
             return "stagefail"
         if fails(b):
             failed = True
+            if b.get("exc") == "kbd":
+                base.append(name)       # not an Exception: reported as an error AND leaves run() afterwards
             return "stagefail"
         return True
 
@@ -125,7 +130,20 @@ def model(prog):
         dirty = True
     clean = kind == "ok" and not failed and not skipped and not dirty
     return {"clean": clean, "kind": kind, "skipped": skipped, "failed": failed or dirty, "ran": ran,
-            "ties": ties, "end": now}
+            "ties": ties, "end": now, "base": base}
+
+
+class _Sel:
+    """A selectable somebody forgot to unregister."""
+
+    def fileno(self):
+        return -1
+
+    def connectionLost(self, reason):
+        pass
+
+    def logPrefix(self):
+        return "sel"
 
 
 def build_case(prog, reactor, stagelog):
@@ -174,6 +192,8 @@ def build_case(prog, reactor, stagelog):
                 flush_logged_errors(KeyError)
             elif x.startswith("leave_call:"):
                 reactor.callLater(float(x.split(":")[1]), lambda: None)
+            elif x == "leave_reader":
+                reactor.addReader(_Sel())
             elif x == "leave_chain":
                 def rearm():
                     reactor.callLater(5.0, lambda: None)
@@ -188,8 +208,9 @@ def build_case(prog, reactor, stagelog):
             register_late()
         if k == "ret":
             return None
+        exc_type = KeyboardInterrupt if b.get("exc") == "kbd" else ValueError
         if k == "raise":
-            raise ValueError("E@" + name)
+            raise exc_type("E@" + name)
         if k == "fail":
             raise AssertionError("F@" + name)
         if k == "skip":
@@ -197,7 +218,7 @@ def build_case(prog, reactor, stagelog):
         if k == "fired":
             return defer.succeed(None)
         if k == "failed":
-            return defer.fail(ValueError("E@" + name))
+            return defer.fail(exc_type("E@" + name))
         d = defer.Deferred()
         d.addBoth(lambda r: (stagelog.append(("fired", name, reactor.seconds())), r)[1])
         if late:
@@ -205,7 +226,7 @@ def build_case(prog, reactor, stagelog):
         if k == "fire_at":
             reactor.callLater(b["arg"], d.callback, None)
         elif k == "fail_at":
-            reactor.callLater(b["arg"], d.errback, ValueError("E@" + name))
+            reactor.callLater(b["arg"], d.errback, exc_type("E@" + name))
         return d
 
     class Prog(testtools.TestCase):
@@ -275,7 +296,16 @@ def x_history(ctx, case):
                           "details": sorted((log.of(*recorders.OUTCOMES)[0].payload["details"] or {}).keys())
                           if log.of(*recorders.OUTCOMES) else None}
         ok = len(core) == 3 and core[0] == "startTest" and core[2] == "stopTest" and core[1] in recorders.OUTCOMES
-        ctx.check(ok and propagated is None, "exactly-one-outcome-in-bracket", detail)
+        if m["base"]:
+            # a stage failed with KeyboardInterrupt: one outcome (an error), and the interrupt leaves run()
+            ctx.check(ok and isinstance(propagated, KeyboardInterrupt) and core[1] == "addError",
+                      "exactly-one-outcome-in-bracket", detail)
+        elif m["ties"] and "'kbd'" in repr(prog):
+            # a stage failing with KeyboardInterrupt at exactly the timeout instant: either order is right
+            ctx.check(ok and (propagated is None or isinstance(propagated, KeyboardInterrupt)),
+                      "exactly-one-outcome-in-bracket", detail)
+        else:
+            ctx.check(ok and propagated is None, "exactly-one-outcome-in-bracket", detail)
         outcome = core[1] if ok else None
         # ---- reactor and observers clean, whatever happened ------------------------------------
         ctx.check(not reactor.getDelayedCalls() and not reactor.running, "after.no-pending-calls",
@@ -459,6 +489,8 @@ ENDS = [{"end": "raise"}, {"end": "fail"}, {"end": "skip"}, {"end": "fired"}, {"
         {"end": "fire_at", "arg": 0.5}, {"end": "fail_at", "arg": 0.5}, {"end": "fire_at", "arg": 1.5},
         {"end": "never"},
         {"end": "ret", "do": ["logerr"]}, {"end": "ret", "do": ["logerr_new"]}, {"end": "ret", "do": ["drop_failed"]},
+        {"end": "raise", "exc": "kbd"}, {"end": "failed", "exc": "kbd"}, {"end": "fail_at", "arg": 0.5, "exc": "kbd"},
+        {"end": "ret", "do": ["leave_reader"]}, {"end": "ret", "do": ["leave_reader", "leave_call:5.0"]},
         {"end": "ret", "do": ["leave_call:9"]}, {"end": "ret", "do": ["leave_chain"]},
         {"end": "ret", "do": ["expect_mismatch"]}, {"end": "fire_at", "arg": 0.5, "do": ["leave_call:0.2"]},
         {"end": "ret", "do": ["leave_call:0"]}, {"end": "ret", "do": ["logerr_flush"]},
@@ -494,7 +526,7 @@ def run(ctx):
                             continue
                         n += 1
                         ctx.execute("history", {"progs": [make([(slot, b)], T, tau, runner)]}, sample=(n % 307 == 0))
-    ctx.note_space("single non-trivial behaviour: 5 stages x 19 behaviours x 2 timeouts x 6 stop instants x 2 "
+    ctx.note_space("single non-trivial behaviour: 5 stages x 24 behaviours x 2 timeouts x 6 stop instants x 2 "
                    "runner variants", n, not ctx.quick)
     # double faults (no interrupts)
     n = 0
@@ -509,7 +541,7 @@ def run(ctx):
                         continue
                     n += 1
                     ctx.execute("history", {"progs": [make([(s1, b1), (s2, b2)], 2.0, None)]}, sample=(n % 307 == 0))
-    ctx.note_space("double non-trivial behaviours: 10 stage pairs x 19 x 19 behaviours, timeout 2.0", n, not ctx.quick)
+    ctx.note_space("double non-trivial behaviours: 10 stage pairs x 24 x 24 behaviours, timeout 2.0", n, not ctx.quick)
     # slow synchronous work that straddles the timeout AND the instant the test's Deferred fires (both
     # calls become due in one reactor pass, in time order), or that precedes an interrupt
     n = 0
